@@ -5,9 +5,29 @@
 //! meta lines (never compared with the model, used by the python monitors only):
 //!   `#arrive <c> <key>`  before `call()` (a leader's `inner_call` line follows immediately),
 //!   `#poll <c>`          at every poll of a call future that made no inner call in `call()`.
+//!   `#dropsvc`           the adapter dropped its service handle and the layer (`manual dropsvc`).
+//!
+//! `manual dropsvc`: every `CoalesceService` handle sharing the in-flight table goes away while call
+//! futures may still be in flight (what `svc.clone().oneshot(req)` bursts do when the last request
+//! consumes the original handle). The per-arrival clone made in `arrive` is dropped when `arrive`
+//! returns, as `Oneshot` does right after `call`, so after `dropsvc` only the call futures themselves
+//! can keep anything alive. No request can be made afterwards: a later `arrive` is answered `noop`.
+//!
+//! `manual ondrop c=<c> by=<c2> inner=<lat>:<out> [thread=1]`: arms a one-shot hook on the INNER future of
+//! caller `c`: when that future is destroyed unfinished (its leader was dropped), its destructor — before it
+//! releases anything, i.e. before `inner_drop` is logged — lets a request `c2` for the same key arrive
+//! (`clone` / `poll_ready` / `call`), on the dropping thread itself (a destructor that issues a request) or,
+//! with `thread=1`, on a second OS thread while the destructor blocks until that thread has returned (a slow
+//! destructor and a concurrent caller: a real two-thread schedule, made deterministic by the join).
+//! `CoalesceFuture::drop` unregisters the key and only then lets its fields be destroyed, so this is the
+//! one point at which code can run between "key unregistered" and "inner future destroyed". Meta line
+//! `#ondrop <c> <c2>`; the future obtained for `c2` is parked and handed out by the next `arrive <c2> …`
+//! (which then makes no call of its own), so that the case can go on polling it.
 use crate::world::*;
+use std::collections::{BTreeMap, BTreeSet};
 use std::future::Future;
 use std::pin::Pin;
+use std::sync::{Arc, Mutex};
 use std::task::{Context, Poll};
 use tower::{Layer, Service};
 use tower_resilience_coalesce::{CoalesceError, CoalesceLayer, CoalesceService};
@@ -24,31 +44,152 @@ fn key_of(r: &Req) -> u64 {
 #[derive(Clone)]
 pub struct CallPanic {
     inner: Inner,
+    shared: Arc<Mutex<Shared>>,
 }
 const CALL_PANIC: u64 = u64::MAX;
 impl Service<Req> for CallPanic {
     type Response = Resp;
     type Error = IErr;
-    type Future = InnerFut;
+    type Future = Hooked;
     fn poll_ready(&mut self, cx: &mut Context<'_>) -> Poll<Result<(), IErr>> {
         self.inner.poll_ready(cx)
     }
-    fn call(&mut self, req: Req) -> InnerFut {
+    fn call(&mut self, req: Req) -> Hooked {
         if req.tag == CALL_PANIC {
             panic!("scripted panic inside call()");
         }
-        self.inner.call(req)
+        let (c, key) = (req.c, req.key);
+        Hooked { c, key, over: false, shared: self.shared.clone(), fut: self.inner.call(req) }
     }
 }
 
+type Svc = CoalesceService<CallPanic, u64, Req, KeyFn>;
+type SvcFut = <Svc as Service<Req>>::Future;
+
+/// What the inner futures' destructors need: the owner's handle, the armed hooks, the parked futures.
+pub struct Shared {
+    /// the owner's handle; `None` once `manual dropsvc` has dropped it
+    svc: Option<Svc>,
+    /// `manual ondrop c=.. by=..`: leader -> (new caller, its arguments, on a second thread)
+    hooks: BTreeMap<usize, (usize, Kv, bool)>,
+    /// futures obtained inside a destructor, waiting for their `arrive` op
+    parked: BTreeMap<usize, (SvcFut, bool)>,
+    /// every caller that has made (or been refused) a request
+    known: BTreeSet<usize>,
+}
+
+/// The scripted inner future, with the destructor hook described at the top of the file. Field order
+/// matters: `Drop::drop` below runs first, then `fut` is destroyed (and logs `inner_drop`).
+pub struct Hooked {
+    c: usize,
+    key: u64,
+    /// finished, or panicked inside `poll`: not in flight any more
+    over: bool,
+    shared: Arc<Mutex<Shared>>,
+    fut: InnerFut,
+}
+impl Future for Hooked {
+    type Output = Result<Resp, IErr>;
+    fn poll(mut self: Pin<&mut Self>, cx: &mut Context<'_>) -> Poll<Self::Output> {
+        self.over = true; // stays set if the poll below unwinds
+        let r = Pin::new(&mut self.fut).poll(cx);
+        if r.is_pending() {
+            self.over = false;
+        }
+        r
+    }
+}
+impl Drop for Hooked {
+    fn drop(&mut self) {
+        if self.over {
+            return;
+        }
+        let job = {
+            let mut sh = self.shared.lock().unwrap_or_else(|e| e.into_inner());
+            match (sh.hooks.get(&self.c).cloned(), sh.svc.as_ref().map(|s| s.clone())) {
+                (Some((c2, kv, thread)), Some(svc)) if !sh.known.contains(&c2) => {
+                    sh.hooks.remove(&self.c);
+                    sh.known.insert(c2);
+                    Some((c2, kv, thread, svc))
+                }
+                _ => None,
+            }
+        };
+        let Some((c2, kv, thread, svc)) = job else { return };
+        log_raw(format!("#ondrop {} {}", self.c, c2));
+        let mut req = Req::new(c2, &kv);
+        req.key = self.key;
+        let got = if thread {
+            // this destructor blocks; meanwhile another thread makes the request
+            let rt = tokio::runtime::Handle::current();
+            std::thread::scope(|s| {
+                s.spawn(move || {
+                    let _g = rt.enter();
+                    request(svc, c2, req)
+                })
+                .join()
+                .unwrap_or(None)
+            })
+        } else {
+            request(svc, c2, req)
+        };
+        if let Some(x) = got {
+            self.shared.lock().unwrap_or_else(|e| e.into_inner()).parked.insert(c2, x);
+        }
+    }
+}
+
+/// One request the way a caller makes it: `poll_ready`, `call`; the handle (a clone) is dropped on return,
+/// as `Oneshot` does. `None` when no future came into being (the adapter has logged why).
+fn request(mut svc: Svc, c: usize, req: Req) -> Option<(SvcFut, bool)> {
+    match poll_ready_once(&mut svc) {
+        Poll::Ready(Ok(())) => {}
+        _ => {
+            log(format!("result {} notready", c));
+            return None;
+        }
+    }
+    log_raw(format!("#arrive {} {}", c, req.key));
+    let before = log_len();
+    let fut = match std::panic::catch_unwind(std::panic::AssertUnwindSafe(|| svc.call(req))) {
+        Ok(f) => f,
+        Err(_) => {
+            // `Service::call` unwound: the caller never gets a future
+            log(format!("result {} panic", c));
+            return None;
+        }
+    };
+    let led = log_len() != before; // the inner service logged `inner_call`
+    Some((fut, led))
+}
+
 pub struct Adapter {
-    svc: CoalesceService<CallPanic, u64, Req, KeyFn>,
+    shared: Arc<Mutex<Shared>>,
+    layer: Option<CoalesceLayer<u64, Req, KeyFn>>,
 }
 
 impl Adapter {
     pub fn new(_kv: &Kv) -> Adapter {
         let layer: CoalesceLayer<u64, Req, KeyFn> = CoalesceLayer::builder(key_of as KeyFn).name("verif").build();
-        Adapter { svc: layer.layer(CallPanic { inner: Inner::new() }) }
+        let shared = Arc::new(Mutex::new(Shared { svc: None, hooks: BTreeMap::new(), parked: BTreeMap::new(), known: BTreeSet::new() }));
+        let svc = layer.layer(CallPanic { inner: Inner::new(), shared: shared.clone() });
+        shared.lock().unwrap().svc = Some(svc);
+        Adapter { shared, layer: Some(layer) }
+    }
+    fn sh(&self) -> std::sync::MutexGuard<'_, Shared> {
+        self.shared.lock().unwrap_or_else(|e| e.into_inner())
+    }
+}
+impl Drop for Adapter {
+    fn drop(&mut self) {
+        // `Shared` holds the service, whose inner service holds `Shared`: break the cycle, outside the lock
+        let (svc, parked) = {
+            let mut sh = self.sh();
+            sh.hooks.clear();
+            (sh.svc.take(), std::mem::take(&mut sh.parked))
+        };
+        drop(parked);
+        drop(svc);
     }
 }
 
@@ -79,30 +220,46 @@ impl<F: Future> Future for Traced<F> {
 
 impl Mw for Adapter {
     fn arrive(&mut self, c: usize, kv: &Kv) -> Option<CallFut> {
-        let mut svc = self.svc.clone();
-        let mut req = Req::new(c, kv);
-        if kv.u64("callpanic", 0) == 1 {
-            req.tag = CALL_PANIC;
-        }
-        match poll_ready_once(&mut svc) {
-            Poll::Ready(Ok(())) => {}
-            _ => {
-                log(format!("result {} notready", c));
-                return None;
-            }
-        }
-        log_raw(format!("#arrive {} {}", c, req.key));
-        let before = log_len();
-        let fut = match std::panic::catch_unwind(std::panic::AssertUnwindSafe(|| svc.call(req))) {
-            Ok(f) => f,
-            Err(_) => {
-                // `Service::call` unwound: the caller never gets a future
-                log(format!("result {} panic", c));
-                return None;
-            }
+        let (parked, owner) = {
+            let mut sh = self.sh();
+            sh.known.insert(c);
+            (sh.parked.remove(&c), sh.svc.as_ref().map(|s| s.clone()))
         };
-        let led = log_len() != before; // the inner service logged `inner_call`
+        let got = if let Some(x) = parked {
+            // the request was made inside a destructor (`manual ondrop`); this op only hands the future to the poller
+            Some(x)
+        } else {
+            let Some(svc) = owner else {
+                // no handle left to call through: invalid operation
+                log("noop".into());
+                return None;
+            };
+            let mut req = Req::new(c, kv);
+            if kv.u64("callpanic", 0) == 1 {
+                req.tag = CALL_PANIC;
+            }
+            request(svc, c, req)
+        };
+        let (fut, led) = got?;
         let fut = Traced { c, on: !led, fut: Box::pin(fut) };
         Some(held(fut, render))
+    }
+    fn manual(&mut self, what: &str, kv: &Kv) {
+        if what == "dropsvc" {
+            let svc = {
+                let mut sh = self.sh();
+                if sh.svc.is_some() {
+                    log_raw("#dropsvc".into());
+                }
+                sh.svc.take()
+            };
+            drop(svc);
+            drop(self.layer.take());
+        } else if what == "ondrop" {
+            if let (Some(c), Some(c2)) = (kv.opt_u64("c"), kv.opt_u64("by")) {
+                let args = Kv(kv.0.iter().filter(|(k, _)| k == "inner").cloned().collect());
+                self.sh().hooks.insert(c as usize, (c2 as usize, args, kv.u64("thread", 0) == 1));
+            }
+        }
     }
 }
